@@ -57,7 +57,7 @@ func registerVerifAPI(m *Machine) {
 		m.addPC(Ult(t, Const(64, uint64(n))))
 		save := m.cfg.MaxConcretize
 		m.cfg.MaxConcretize = n + 1
-		v := m.Concretize(t, "choose "+strArg(a[0]))
+		v := m.Concretize(t, "choose "+t.Name)
 		m.cfg.MaxConcretize = save
 		return Const(64, v)
 	}
